@@ -605,7 +605,20 @@ func (e *Engine) checkNeg(neg *Term) (string, map[string]string, bool) {
 	if neg.Op == "false" {
 		return "unsat", nil, true
 	}
-	r := e.S.Check(e.decls, e.pcStrings(neg), e.spec.AssertMs)
+	// nonlinear obligations go to a one-shot solver process (z3's non-incremental nonlinear
+	// pipeline closes in milliseconds what the incremental core times out on)
+	check := e.S.Check
+	if neg.Nonlinear() {
+		check = e.S.CheckFresh
+	} else {
+		for _, t := range e.pc {
+			if t.Nonlinear() {
+				check = e.S.CheckFresh
+				break
+			}
+		}
+	}
+	r := check(e.decls, e.pcStrings(neg), e.spec.AssertMs)
 	if r == "unsat" {
 		return "unsat", nil, true
 	}
@@ -622,7 +635,7 @@ func (e *Engine) checkNeg(neg *Term) (string, map[string]string, bool) {
 		}
 	}
 	// second stage: exact definitions of every rounding variable added
-	r2 := e.S.Check(e.decls, e.exactStrings(neg), e.spec.ExactMs)
+	r2 := check(e.decls, e.exactStrings(neg), e.spec.ExactMs)
 	switch r2 {
 	case "unsat":
 		return "unsat", nil, true
